@@ -4,6 +4,7 @@ import (
 	"fmt"
 	"sort"
 	"sync"
+	"time"
 
 	"github.com/apache/yunikorn-scheduler-interface/lib/go/si"
 )
@@ -45,26 +46,29 @@ type MAlloc struct {
 }
 
 type MApp struct {
-	ID          string
-	Queue       string // requested queue name
-	User        string
-	Groups      []string
-	Tags        map[string]string
-	Gang        bool
-	GangStyle   string
-	TimeoutMs   int64
-	TaskGroups  map[string]int // name -> placeholder count
-	PhAsk       Res
-	Forced      bool
-	Status      string // submitted, accepted, rejected, removed
-	Answers     int    // accepted/rejected answers received
-	States      []string
-	RemoveSent  bool
-	SubmitStep  int
-	RejectMsg   string
-	UgiNil      bool
-	PlacedQueue string // filled by observation (DAO), not by the shim protocol
-	Admitted    bool   // has had an allocation and has not been without allocations and asks since
+	ID             string
+	Queue          string // requested queue name
+	User           string
+	Groups         []string
+	Tags           map[string]string
+	Gang           bool
+	GangStyle      string
+	TimeoutMs      int64
+	TaskGroups     map[string]int // name -> placeholder count
+	PhAsk          Res
+	Forced         bool
+	Status         string // submitted, accepted, rejected, removed
+	Answers        int    // accepted/rejected answers received
+	States         []string
+	RemoveSent     bool
+	SubmitStep     int
+	RejectMsg      string
+	UgiNil         bool
+	PlacedQueue    string // filled by observation (DAO), not by the shim protocol
+	CompletingAtMs int64  // fake time (ms since start) of the last reported Completing
+	SubmitAtMs     int64
+	FirstPhAtMs    int64 // fake time of the first placeholder allocation
+	Admitted       bool  // has had an allocation and has not been without allocations and asks since
 }
 
 type MNode struct {
@@ -138,6 +142,8 @@ type Shim struct {
 	schedStates int
 	lastPredOK  map[string]bool
 	Tainted     map[string]string // application -> known in-flight swap trigger it went through
+	start       time.Time
+	badIDs      map[string]string // ids used by malformed requests: answers about them are expected
 }
 
 func (s *Shim) taint(app, kind string) {
@@ -159,7 +165,7 @@ type Violation struct {
 
 func NewShim(c *conductorT, seed uint64) *Shim {
 	return &Shim{c: c, rmID: "rm:1", Allocs: map[string]*MAlloc{}, Apps: map[string]*MApp{}, Nodes: map[string]*MNode{},
-		Foreign: map[string]*MAlloc{}, rng: NewRng(seed, "shim"), faults: map[string]int{}, lastPredOK: map[string]bool{}}
+		badIDs: map[string]string{}, Foreign: map[string]*MAlloc{}, rng: NewRng(seed, "shim"), faults: map[string]int{}, lastPredOK: map[string]bool{}}
 }
 
 func (s *Shim) violate(prop, clause, sig, format string, args ...any) {
@@ -258,6 +264,9 @@ func (cb *shimCB) UpdateApplication(r *si.ApplicationResponse) error {
 		s.ev(SIEvent{Kind: "appUpdated", App: u.ApplicationID, Type: u.State, Msg: u.Message})
 		if app := s.Apps[u.ApplicationID]; app != nil {
 			app.States = append(app.States, u.State)
+			if u.State == "Completing" {
+				app.CompletingAtMs = s.nowMs()
+			}
 		}
 	}
 	return nil
@@ -395,6 +404,9 @@ func (s *Shim) onNew(a *si.Allocation) {
 	m.Node = a.NodeID
 	m.EverBound = true
 	m.BoundStep = s.Step
+	if m.Placeholder && app != nil && app.FirstPhAtMs == 0 {
+		app.FirstPhAtMs = s.nowMs()
+	}
 }
 
 func (s *Shim) onReleased(r *si.AllocationRelease) {
@@ -466,6 +478,8 @@ func (s *Shim) onRejectedAlloc(r *si.RejectedAllocation) {
 		f.RejectReason = "rejected: " + r.Reason
 	}
 }
+
+func (s *Shim) nowMs() int64 { return time.Since(s.start).Milliseconds() }
 
 func (s *Shim) dropObligation(key string) {
 	out := s.Owed[:0]
